@@ -208,6 +208,11 @@ Definition hdr_cont (st st' : St) (h : nat) (cenc : nat * nat) (br : bool) (t : 
     unfolds_to X1 (stuff (split_lines (sub m b s))) = true /\
     unfolds_to (X2 ++ c) (stuff (split_lines (sub m (b + e) (h - e)))) = true.
 
+(** the recorded Content-Transfer-Encoding field: inside the window, a whole field as getfieldlen() sees it
+    (first line and continuation lines, ending with a line end), at the start of a line, with that name *)
+Definition cenc_ok (h : nat) (cenc : nat * nat) : Prop :=
+  fld_inv2 m b len cenc /\ cte_named m b len cenc /\ (snd cenc <> 0 -> fst cenc <= h).
+
 (** what qp_header hands on when it does not give up *)
 Definition hdr_done (br : bool) (st : St) (r : Run (nat * MpRes)) : Prop :=
   match r with
@@ -219,7 +224,7 @@ Definition hdr_done (br : bool) (st : St) (r : Run (nat * MpRes)) : Prop :=
       existsb is8 (sub m b h) = false /\
       longrun 0 (skipn h w) = longrun 0 (skipn (hpos 0 w) w) /\
       exists t, good ext8 D0 st' t /\ (h < len \/ ends_eol w = true -> t = []) /\
-                (mp = MpNo -> exists cenc, hdr_cont st st' h cenc br t)
+                (mp = MpNo -> exists cenc, cenc_ok h cenc /\ hdr_cont st st' h cenc br t)
   end.
 
 (** the part of qp_header behind is_multipart(), given how the pieces of the header window behave *)
@@ -350,6 +355,7 @@ Lemma hdr_tail (h : nat) (ct cenc : nat * nat) (body_recode : bool) (st : St) :
   good ext8 D0 st [] -> 1 <= h <= len ->
   (snd ct = 0 \/ CT_LEN < snd ct /\ fst ct + snd ct <= len /\ field_ok m (b + fst ct) (snd ct)) ->
   longrun 0 (skipn h w) = longrun 0 (skipn (hpos 0 w) w) ->
+  cenc_ok h cenc ->
   (existsb is8 (sub m b h) = false ->
    (forall st0, good ext8 D0 st0 [] ->
       exists st' t, wrap_header m b h st0 = Ok st' /\ good ext8 D0 st' t /\ (h < len \/ ends_eol w = true -> t = []) /\
@@ -362,7 +368,7 @@ Lemma hdr_tail (h : nat) (ct cenc : nat * nat) (body_recode : bool) (st : St) :
                     cont (sub m (b + (fst cenc + snd cenc)) (h - (fst cenc + snd cenc))) st0 st' t)) ->
   exists r, hdr_rest h ct cenc body_recode st = Ok r /\ hdr_done body_recode st r.
 Proof.
-  intros Hg Hh Hct Hlr Pieces. unfold hdr_rest.
+  intros Hg Hh Hct Hlr Hcok Pieces. unfold hdr_rest.
   rewrite (need_recode_ok m b h) by lia. cbn [bind].
   destruct (nr_fun_facts (sub m b h) flags0 0 false) as [H8 _]. cbv zeta in H8. cbn [f8 flags0 orb] in H8.
   destruct (f8 (nr_fun (sub m b h) flags0 0 false)).
@@ -377,7 +383,7 @@ Proof.
   - intros bs bl ->. destruct (Hmp bs bl eq_refl) as (Hbl & Hbs & Hbe). split; [exact Hbl|].
     destruct Hct as [Hz|(_ & B & _)]; [rewrite Hz in Hbe; lia|lia].
   - split; [exact H8|]. split; [exact Hlr|]. exists t. split; [exact Gt|]. split; [exact Ht|].
-    intros Emp'. exists cenc. apply Hcont. exact Emp'.
+    intros Emp'. exists cenc. split; [exact Hcok|]. apply Hcont. exact Emp'.
 Qed.
 
 Lemma qp_header_eq body_recode st :
@@ -412,7 +418,10 @@ Lemma hdr_eol_case (c0 : N) (r : bytes) (h : nat) body_recode st :
   skipn h w = after_eol c0 r -> ends_eol (firstn h w) = true ->
   exists res, hdr_rest h (0, 0) (0, 0) body_recode st = Ok res /\ hdr_done body_recode st res.
 Proof.
-  intros Hg Ew He Hh Hhl Hsk Hends. apply hdr_tail; [exact Hg|lia|left; reflexivity| |].
+  intros Hg Ew He Hh Hhl Hsk Hends.
+  assert (Hcok : cenc_ok h (0, 0)).
+  { split; [split; [left; reflexivity|intros Hn; cbn in Hn; contradiction]|]. split; intros Hn; cbn in Hn; contradiction. }
+  apply hdr_tail; [exact Hg|lia|left; reflexivity| |exact Hcok|].
   - rewrite Hsk. rewrite Ew. rewrite (hpos_eol_z c0 r He). cbn [skipn]. rewrite longrun_cons, He.
     replace (Nat.ltb MAXLINE 0) with false by (symmetry; apply Nat.ltb_ge; lia). reflexivity.
   - intros H8. split; [|split; intros Hn; cbn in Hn; contradiction].
@@ -427,10 +436,10 @@ Qed.
 Lemma hdr_scan_case (hd o' : nat) (ct' ce' : nat * nat) body_recode st :
   good ext8 D0 st [] -> is_eol (nth 0 w 0%N) = false ->
   scan_post m b len hd -> fld_inv2 m b len ct' -> fld_inv2 m b len ce' ->
-  (hd <> 0 -> fle hd ce') ->
+  (hd <> 0 -> fle hd ce') -> cte_named m b len ce' ->
   exists res, hdr_rest (if Nat.eqb hd 0 then len else hd) ct' ce' body_recode st = Ok res /\ hdr_done body_recode st res.
 Proof.
-  intros Hg Hc0 Hpost Fct Fce Hmono.
+  intros Hg Hc0 Hpost Fct Fce Hmono Hnamed.
   set (h := if Nat.eqb hd 0 then len else hd).
   destruct Hpost as (Hhd & Hnz & Hz). fold w in Hnz, Hz.
   assert (HhP : h = hpos 0 w).
@@ -439,7 +448,10 @@ Proof.
   { destruct w as [|c0 r] eqn:Ew; [cbn in w_len; lia|]. cbn [nth] in Hc0. rewrite (hpos_noneol c0 r 0 Hc0). lia. }
   assert (HPl : hpos 0 w <= len) by (rewrite <- w_len; apply hpos_le).
   assert (Hin : h < len -> 0 < hpos 0 w < length w) by (rewrite w_len; lia).
-  apply hdr_tail; [exact Hg|lia|exact (proj1 Fct)|now rewrite HhP|].
+  assert (Hsh0 : snd ce' <> 0 -> fst ce' <= h).
+  { intros Hn. destruct Fce as (Finv & _). destruct Finv as [Hz0|(_ & Hel & _)]; [contradiction|].
+    unfold h. destruct (Nat.eqb_spec hd 0) as [E|E]; [lia|]. apply (Hmono E). exact Hn. }
+  apply hdr_tail; [exact Hg|lia|exact (proj1 Fct)|now rewrite HhP|split; [exact Fce|split; [exact Hnamed|exact Hsh0]]|].
   intros H8. rewrite sub_prefix in H8 by lia.
   set (hw := firstn h w) in *.
   assert (Hhwl : length hw = h) by (unfold hw; rewrite firstn_length, w_len; lia).
@@ -537,6 +549,7 @@ Proof.
       apply hdr_scan_case; try assumption.
       * rewrite Ew. exact He.
       * intros Hnz. apply (qh_scan_mono m b len _ 0 (0, 0) (0, 0) hd o' ct' ce' E Hnz); intros Hn; cbn in Hn; contradiction.
+      * apply (qh_scan_cte m b len _ 0 (0, 0) (0, 0) hd o' ct' ce' E). intros Hn. cbn in Hn. contradiction.
 Qed.
 
 Lemma ends_eol_skipn (l : bytes) k : k < length l -> ends_eol (skipn k l) = ends_eol l.
